@@ -2285,9 +2285,21 @@ func (rn *runner) proposal(v, c *tmconsensus.VersionedRoundView, H uint64, R uin
 		next = w.wideValset()
 	} else if !haveNext {
 		next = w.randValset()
-		if w.r.chance(1, 3) {
+		switch w.r.below(6) {
+		case 0, 1:
 			next = cur // unchanged set
 			next.ok = true
+		case 2:
+			// the same validators with other powers: the key hash stays, only the vote power hash changes
+			pows := make([]uint64, len(cur.pows))
+			for i, p := range cur.pows {
+				pows[i] = p
+				if w.r.chance(2, 3) {
+					pows[i] = uint64(1 + w.r.below(1000))
+				}
+			}
+			next = w.mkValset(cur.keys, pows)
+			rn.stats["next_valset_same_keys_other_powers"]++
 		}
 	}
 	if variant == 8 {
